@@ -86,6 +86,8 @@ pub enum CoordClass {
     /// a polyline running many times between far-apart points and ending in a very short segment
     /// (cumulative length ~1e7 times the last segment)
     ZigZag,
+    /// integer triples with a tiny exact cross product far from the origin (ill-conditioned f32 circumcircle)
+    SmallCross,
 }
 
 fn gen_coord(t: &mut Tape, class: CoordClass) -> (f32, f32) {
@@ -97,7 +99,7 @@ fn gen_coord(t: &mut Tape, class: CoordClass) -> (f32, f32) {
         CoordClass::Collinear => (0.0, 0.0), // filled by the caller
         CoordClass::Huge => (t.int(-262144, 262144) as f32, t.int(-262144, 262144) as f32),
         CoordClass::NearDup => (t.int(-2, 2) as f32, t.int(-2, 2) as f32),
-        CoordClass::ZigZag => (0.0, 0.0), // built by the caller
+        CoordClass::ZigZag | CoordClass::SmallCross => (0.0, 0.0), // built by the caller
     }
 }
 
@@ -110,7 +112,7 @@ pub fn gen_points(t: &mut Tape, max_points: usize, allow_huge: bool) -> (Vec<Pat
 /// `allow_near`: also generate points that are distinct but only a few f32 ulps (>= 1e-8) apart
 pub fn gen_points_ex(t: &mut Tape, max_points: usize, allow_huge: bool, allow_near: bool) -> (Vec<PathControlPoint>, CoordClass) {
     let n = 1 + t.below(max_points);
-    let class = match t.weighted(&[3, 4, 3, 2, 2, 2, if allow_huge { 1 } else { 0 }, if allow_near { 1 } else { 0 }, if allow_huge { 1 } else { 0 }]) {
+    let class = match t.weighted(&[3, 4, 3, 2, 2, 2, if allow_huge { 1 } else { 0 }, if allow_near { 1 } else { 0 }, if allow_huge { 1 } else { 0 }, if allow_huge { 1 } else { 0 }]) {
         0 => CoordClass::TinyGrid,
         1 => CoordClass::Screen,
         2 => CoordClass::Quarter,
@@ -119,8 +121,22 @@ pub fn gen_points_ex(t: &mut Tape, max_points: usize, allow_huge: bool, allow_ne
         5 => CoordClass::Collinear,
         6 => CoordClass::Huge,
         7 => CoordClass::NearDup,
-        _ => CoordClass::ZigZag,
+        8 => CoordClass::ZigZag,
+        _ => CoordClass::SmallCross,
     };
+    if class == CoordClass::SmallCross {
+        // 1..3 perfect-curve (or other) segments of three nearly collinear points each
+        let nseg = 1 + t.below(3);
+        let mut pts: Vec<PathControlPoint> = vec![];
+        for _ in 0..nseg {
+            let tri = crate::gen::doc::small_cross_triple(t);
+            let ty = *t.pick(&[PathType::PERFECT_CURVE, PathType::PERFECT_CURVE, PathType::PERFECT_CURVE, PathType::BEZIER, PathType::CATMULL]);
+            for (i, p) in tri.iter().enumerate() {
+                pts.push(PathControlPoint { pos: Pos::new(p.0 as f32, p.1 as f32), path_type: if i == 0 { Some(ty) } else { None } });
+            }
+        }
+        return (pts, class);
+    }
     if class == CoordClass::ZigZag {
         // linear (or Bezier-of-two-points) runs between two far corners, then one short last segment
         let far = *t.pick(&[131072.0f32, 100000.0, 65536.0]);
